@@ -40,7 +40,7 @@ type C30Scn struct {
 	MinV        uint16      `json:"min_v"`
 	MaxV        uint16      `json:"max_v"`
 	ClientAuth  int         `json:"client_auth"`
-	CA          int         `json:"ca"`     // 0 none, 1 the CA file, 2 a missing file
+	CA          int         `json:"ca"`     // 0 none, 1 the CA file, 2 a missing file, 3 a blank file, 4 a file that holds no certificate
 	Suites      int         `json:"suites"` // 0 as given by Default/none, 1 empty (Go defaults), 2 with CBC-SHA suites added
 	Clients     []C30Client `json:"clients"`
 	Rotate      bool        `json:"rotate"`            // replace the certificate files and perform the documented reload step
@@ -59,6 +59,8 @@ var (
 	c30Once sync.Once
 	c30pki  *c30PKIT
 	c30Err  error
+	// c30RootsDir holds the process-wide fake system root store (removed by TestSim when the process ends)
+	c30RootsDir string
 )
 
 func c30MakePKI() (*c30PKIT, error) {
@@ -112,6 +114,17 @@ func c30MakePKI() (*c30PKIT, error) {
 			return
 		}
 		pemOf := func(typ string, der []byte) []byte { return pem.EncodeToMemory(&pem.Block{Type: typ, Bytes: der}) }
+		// The host's root store, as this process sees it, is exactly the FOREIGN CA: a server that falls back to
+		// the system roots instead of its configured client CA then serves the foreign-CA client, which the
+		// oracle sees. (Go reads SSL_CERT_FILE/SSL_CERT_DIR once, the first time system roots are needed; every
+		// client in this harness brings its own RootCAs, so nothing else depends on them.)
+		if rootsDir, derr := os.MkdirTemp("", "verif-c30-roots-"); derr == nil {
+			os.WriteFile(filepath.Join(rootsDir, "roots.pem"), pemOf("CERTIFICATE", foreignDER), 0o600)
+			os.MkdirAll(filepath.Join(rootsDir, "empty"), 0o700)
+			os.Setenv("SSL_CERT_FILE", filepath.Join(rootsDir, "roots.pem"))
+			os.Setenv("SSL_CERT_DIR", filepath.Join(rootsDir, "empty"))
+			c30RootsDir = rootsDir
+		}
 		c30pki = &c30PKIT{caPEM: pemOf("CERTIFICATE", caDER), foreignPEM: pemOf("CERTIFICATE", foreignDER), srvAPEM: pemOf("CERTIFICATE", srvA), srvBPEM: pemOf("CERTIFICATE", srvB),
 			leafKeyPEM: pemOf("RSA PRIVATE KEY", x509.MarshalPKCS1PrivateKey(leafKey)), srvADER: srvA, srvBDER: srvB,
 			cliSelf:    tls.Certificate{Certificate: [][]byte{self}, PrivateKey: leafKey},
@@ -181,6 +194,10 @@ func runC30(t *testing.T, scAny any, trace bool) *Outcome {
 			tc.CAFile = caFile
 		case 2:
 			tc.CAFile = filepath.Join(dir, "missing.crt")
+		case 3, 4:
+			// a CA bundle that was truncated or overwritten: blank, or bytes that are no certificate
+			tc.CAFile = filepath.Join(dir, "damaged-ca.crt")
+			os.WriteFile(tc.CAFile, map[int][]byte{3: []byte(" \n\n"), 4: []byte("-----BEGIN CERTIFICATE-----\nnot base64 at all\n-----END CERTIFICATE-----\n")}[sc.CA], 0o600)
 		}
 		switch sc.Suites {
 		case 1:
@@ -340,6 +357,12 @@ func genC30(r *simrt.Rand, tier string) any {
 	if sc.ClientAuth >= 3 && r.Pct(70) {
 		sc.CA = 1
 	}
+	if r.Pct(12) {
+		sc.CA = 3 + r.Int(2) // a damaged CA bundle
+		if r.Pct(70) {
+			sc.ClientAuth = 3 + r.Int(2) // with client certificates verified
+		}
+	}
 	cv := []uint16{tls.VersionTLS10, tls.VersionTLS11, tls.VersionTLS12, tls.VersionTLS13}
 	n := 2 + r.Int(5)
 	for i := 0; i < n; i++ {
@@ -387,7 +410,7 @@ func shrinkC30(scAny any) []any {
 
 func init() {
 	Register(&Prop{ID: "C30", Level: "exploration",
-		Rule: "one case = a TLS configuration drawn from {DefaultTLSConfig or zero value} x Min/MaxVersion in {0, 1.0, 1.1, 1.2, 1.3} (55% recommended ranges) x the five ClientAuth modes x CA file {none, the CA, missing} x cipher suites {as given, Go defaults, with CBC-SHA suites}; when Listen accepts it (real BuildConfig/Validate, tls.Listen seam on the simulated network, real crypto/tls on both ends) 2-6 clients offering version ranges within 1.0..1.3 (35% downgrade attempts capped at 1.0/1.1 with the CBC-SHA suites those versions need) and a certificate from {none, self-signed, signed by the configured CA, signed by another CA} half of them without a server name in the ClientHello, perform a handshake followed by a NULL call (a handshake counts as completed when the server answers); in half of the runs the certificate files are replaced between the first and the second half of the clients and the documented rotation step is performed (optionally after an unrelated UpdatePolicyOptions); in 30% of the runs with a CA the server is stopped between the halves, the CA file is replaced at the same path by another CA and a new instance is started in the same process (the verified chain must then be the new CA's); oracle: no served connection negotiated less than TLS 1.2; when client certificates are verified against the configured CA (RequireAndVerify, or VerifyIfGiven with a certificate given) only the CA-signed client is served; every served handshake presents the leaf certificate currently in the files as of the last rotation step; non-trivial = the configuration was accepted; distinct by event digest. The simulator contributes the network seam and determinism; the schedule dimension is small (sequential clients).",
+		Rule: "one case = a TLS configuration drawn from {DefaultTLSConfig or zero value} x Min/MaxVersion in {0, 1.0, 1.1, 1.2, 1.3} (55% recommended ranges) x the five ClientAuth modes x CA file {none, the CA, missing, blank, damaged} (the process's system root store is set to the FOREIGN CA, so a server that falls back to system roots serves the foreign-CA client) x cipher suites {as given, Go defaults, with CBC-SHA suites}; when Listen accepts it (real BuildConfig/Validate, tls.Listen seam on the simulated network, real crypto/tls on both ends) 2-6 clients offering version ranges within 1.0..1.3 (35% downgrade attempts capped at 1.0/1.1 with the CBC-SHA suites those versions need) and a certificate from {none, self-signed, signed by the configured CA, signed by another CA} half of them without a server name in the ClientHello, perform a handshake followed by a NULL call (a handshake counts as completed when the server answers); in half of the runs the certificate files are replaced between the first and the second half of the clients and the documented rotation step is performed (optionally after an unrelated UpdatePolicyOptions); in 30% of the runs with a CA the server is stopped between the halves, the CA file is replaced at the same path by another CA and a new instance is started in the same process (the verified chain must then be the new CA's); oracle: no served connection negotiated less than TLS 1.2; when client certificates are verified against the configured CA (RequireAndVerify, or VerifyIfGiven with a certificate given) only the CA-signed client is served; every served handshake presents the leaf certificate currently in the files as of the last rotation step; non-trivial = the configuration was accepted; distinct by event digest. The simulator contributes the network seam and determinism; the schedule dimension is small (sequential clients).",
 		Gen:  genC30, New: func() any { return &C30Scn{} }, Run: runC30, Shrink: shrinkC30,
 		Real:        []string{"tls_config.go Validate/BuildConfig/ReloadCertificates/Clone", "server.go Listen/accept/connection loop", "crypto/tls and crypto/x509 on both ends", "options.go policy snapshots (GetExportOptions, UpdatePolicyOptions)"},
 		Stubbed:     []string{"kernel TCP (simnet under tls.NewListener / tls.Client)", "clock (synctest)", "scheduler", "certificate files live in a per-run temporary directory on the real filesystem"},
